@@ -384,6 +384,21 @@ def gen_scripts(rng, n):
             opts["force_kinds"] = [kinds[(k // 4) % len(kinds)]]
         if k % 4 == 1:
             opts["force_hoist"] = [G.HOISTABLE[(k // 4) % len(G.HOISTABLE)]]
+        if k % 4 == 2:          # several instances per device kind, kinds interleaved, a hoistable kind both before and in the loop;
+            j = k // 4          # in rotation: both LCD interfaces in one sketch / only I2C / only parallel LCDs / whatever comes
+            opts["multi"] = True
+            opts["p_hoist"] = 0.5
+            if j % 4 == 0:
+                opts["lcd_both"] = True
+            elif j % 4 in (1, 2):
+                opts["force_kinds"] = ["LCD"]
+                opts["lcd_only"] = ["i2c", "parallel"][j % 4 - 1]
+            if j % 2:
+                opts["force_hoist"] = [G.HOISTABLE[(j // 2) % len(G.HOISTABLE)]]
+        if k % 4 == 3:          # helpers with un-annotated parameters called with several argument types
+            j = k // 4
+            opts["poly"] = 1 + j % 2
+            opts["poly_kinds"] = [G.POLY_KINDS[j % len(G.POLY_KINDS)], G.POLY_KINDS[(j * 5 + 3) % len(G.POLY_KINDS)]]
         src, feats = G.gen_script(rng, opts)
         out.append((src, feats))
     return out
@@ -425,6 +440,159 @@ def analyse_sections(ctx, src, r, consts, compiled, dist, expect_guard=True):
     return items, {"wf": m_wf, "guard": m_guard, "undeclared": und}
 
 
+# ------------------------------------------------------------------ G. library headers and function selection
+HDR_CODE = {"Arduino.h": 0, "Servo.h": 1, "LiquidCrystal.h": 2, "Wire.h": 3, "LiquidCrystal_I2C.h": 4}
+HDR_NAME = {v: k for k, v in HDR_CODE.items()}
+CLASS_KIND = {"Servo": 1, "LiquidCrystal": 2, "LiquidCrystal_I2C": 3}
+OWN_HEADER = {1: "Servo.h", 2: "LiquidCrystal.h", 3: "LiquidCrystal_I2C.h"}      # the header that declares the class itself
+OBJ_RE = re.compile(r"^(Servo|LiquidCrystal_I2C|LiquidCrystal)[ \t]+(__servo_|__redu_lcd_)(\w+)[ \t]*[;(]", re.M)
+LBL = {"int": 0, "float": 1, "bool": 2, "String": 3, "void": 4}
+LBL_NAME = {v: k for k, v in LBL.items()}
+
+
+def enc_lbl(label, other):
+    if label in LBL:
+        return LBL[label]
+    if isinstance(label, str) and label.startswith("list[") and label.endswith("]"):
+        return [5, enc_lbl(label[5:-1], other)]
+    return [6, other.setdefault(str(label), len(other))]
+
+
+def dec_lbl(v, other_names):
+    if isinstance(v, int):
+        return LBL_NAME[v]
+    if v[0] == 5:
+        return "list[" + dec_lbl(v[1], other_names) + "]"
+    return other_names.get(v[1], "?")
+
+
+def library_facts(cpp, code, consts):
+    """(include names in text order with positions, library objects (python name, kind, position) in text order) read from the
+    real sketch text; code = the text with literals and comments blanked.  Includes that belong to a helper snippet (<cstring> of
+    the len helper) are not part of the header stitching."""
+    inside = []
+    for key in ("LCD", "LIST", "LEN"):
+        k = cpp.find(consts[key])
+        if k >= 0:
+            inside.append((k, k + len(consts[key])))
+    incs = [(m.group(1), m.start()) for m in re.finditer(r"^#[ \t]*include[ \t]*<([^>]+)>", code, re.M)
+            if not any(a <= m.start() < b for a, b in inside)]
+    objs = [(m.group(3), CLASS_KIND[m.group(1)], m.start()) for m in OBJ_RE.finditer(code)]
+    return incs, objs
+
+
+def fn_headers(items):
+    """(name, tuple of C++ parameter types) of every user function definition found in the emitted text"""
+    out = []
+    for it in items or []:
+        if it["kind"] != "function":
+            continue
+        head = it["ctext"].split("{")[0]
+        m = re.match(r"\s*[\w<>:,\s\*&]*?\b(\w+)\s*\((.*)\)\s*$", head, re.S)
+        if not m:
+            continue
+        ps = []
+        for prm in [x.strip() for x in m.group(2).split(",") if x.strip()]:
+            ps.append(" ".join(prm.split()[:-1]))
+        out.append((m.group(1), tuple(ps)))
+    return out
+
+
+def check_library_and_functions(ctx, batch, dist, consts):
+    """batch: [(script, transpile result, items read from the text or None)].  Correspondence of Lang/Headers.v and Lang/FnSelect.v
+    with the real parse()/emit(), and the two property clauses evaluated on the real sketch:
+    every instantiated library class has its own header included before the object; no function is defined twice."""
+    n_eval = 0
+    cases, meta = [], []
+    for src, r, items in batch:
+        code = S.strip_code(r["cpp"])
+        incs, objs = library_facts(r["cpp"], code, consts)
+        inc_names = [n for n, _ in incs]
+        # ---- oracle 1: headers (on the text alone)
+        n_eval += 1
+        kinds_here = sorted({k for _, k, _ in objs})
+        dist["library classes in one sketch:" + ("+".join({1: "Servo", 2: "LiquidCrystal", 3: "LiquidCrystal_I2C"}[k] for k in kinds_here) or "none")] += 1
+        if len(objs) > len(kinds_here):
+            dist["sketches with two objects of one library class"] += 1
+        for name, kind, pos in objs:
+            h = OWN_HEADER[kind]
+            where = [p for n, p in incs if n == h]
+            if not where or min(where) > pos:
+                ctx.fail("the sketch instantiates a library class whose header is not included before it",
+                         {"script": src, "object": name, "class": {1: "Servo", 2: "LiquidCrystal", 3: "LiquidCrystal_I2C"}[kind]},
+                         f"#include <{h}> before the object", {"includes": inc_names}, key="missing-header:" + h)
+        # ---- oracle 2: one definition per (name, parameter types)
+        n_eval += 1
+        seen = Counter((n, tuple(ts)) for n, ts in r["fnsel"]["params"])
+        seen_text = Counter(fn_headers(items))
+        for cnt, origin in ((seen, "Program.functions"), (seen_text, "emitted text")):
+            dup = [k for k, c in cnt.items() if c > 1]
+            if dup:
+                n, ts = dup[0]
+                ctx.fail("a user function is defined twice with one parameter list (C++: redefinition)",
+                         {"script": src, "function": n, "parameters": list(ts), "read_from": origin},
+                         "each (name, parameter types) defined once", {f"{a}({', '.join(b)})": c for (a, b), c in cnt.items()},
+                         key="function-defined-twice")
+                break
+        # ---- model cases
+        if not ctx.exe:
+            continue
+        ids = {}
+        idof = lambda nm: ids.setdefault(nm, len(ids) + 1)
+        cases.append([6, [[idof(nm), k] for nm, k in r["decls"]]])
+        meta.append(("hdr", src, r, dict(ids), inc_names, objs))
+        fs = r["fnsel"]["fns"]
+        if fs:
+            other = {}
+            fids = {}
+            fid = lambda nm: fids.setdefault(nm, len(fids) + 1)
+            E = lambda sig: [enc_lbl(l, other) for l in sig]
+            cases.append([7, [[fid(f["name"]), [E(v) for v in f["variants"]], [E(u) for u in f["used"]],
+                               [[E(a), E(c)] for a, c in f["aliases"]], [] if f["primary"] is None else [E(f["primary"])]] for f in fs]])
+            meta.append(("fn", src, r, dict(fids), {v: k for k, v in other.items()}, None))
+            for f in fs:
+                al = {tuple(a): tuple(c) for a, c in f["aliases"]}
+                res = [al.get(tuple(u), tuple(u)) for u in f["used"]]
+                dist[f"fnsel:recorded call signatures per function={min(len(f['used']), 3)}{'+' if len(f['used']) > 3 else ''}"] += 1
+                if len(f["variants"]) > 1:
+                    dist["fnsel:function with several variants"] += 1
+                if f["aliases"]:
+                    dist["fnsel:function with an aliased signature"] += 1
+                if len(set(res)) < len(res):
+                    dist["fnsel:two recorded signatures resolve to ONE variant"] += 1
+                if not f["used"]:
+                    dist["fnsel:function without recorded call (primary variant)"] += 1
+    if not cases:
+        return n_eval
+    outs = ctx.model(cases)
+    for (what, src, r, ids, aux, objs), o in zip(meta, outs):
+        n_eval += 1
+        if o[0] != 0:
+            ctx.disagree(f"model could not decode the {what} case", {"script": src}, o, None)
+            continue
+        if what == "hdr":
+            names = {v: k for k, v in ids.items()}
+            m_incs = [HDR_NAME[c] for c in o[1]]
+            m_objs = [(names.get(n, "?"), k) for n, k in o[2]]
+            if o[3] != 1:
+                ctx.disagree("extracted model contradicts theorem C06_headers_ok (extraction or wire bug)", {"script": src}, 1, o[3])
+            if m_incs != aux:
+                ctx.disagree("library includes: model (Lang/Headers.v on the device declarations of the real IR) vs the emitted text", {"script": src, "declarations": r["decls"]}, m_incs, aux)
+            if m_objs != [(n, k) for n, k, _ in objs]:
+                ctx.disagree("library objects among the globals: model (Lang/Headers.v) vs the emitted text", {"script": src, "declarations": r["decls"]}, m_objs, [(n, k) for n, k, _ in objs])
+            if o[4] != 1:
+                dist["headers:sketch on which the if->elif variant of the model would lose a header"] += 1
+        else:
+            names = {v: k for k, v in ids.items()}
+            m_sel = [[names.get(n, "?"), [dec_lbl(l, aux) for l in sig]] for n, sig in o[1]]
+            real = r["fnsel"]["selected"]
+            if m_sel != real:
+                ctx.disagree("selected function variants: model (Lang/FnSelect.v on the real specialisation tables) vs Program.functions", {"script": src, "tables": r["fnsel"]["fns"]}, m_sel, real)
+            if o[2] != 1:
+                ctx.disagree("model: two selected variants share name and C++ parameter list (outside theorem C06_fn_no_redefinition_partial: unknown label?)", {"script": src, "tables": r["fnsel"]["fns"]}, 1, o[2])
+    return n_eval
+
+
 def part_scripts(ctx, dist, samples):
     rng = ctx.rng
     thorough = ctx.tier == "thorough"
@@ -452,6 +620,7 @@ def part_scripts(ctx, dist, samples):
     n_eval = 0
     distinct = set()
     kinds_seen = Counter()
+    batch = []
     for (src, r), c in zip(acc, comp):
         n_eval += 1
         if not c["compiled"]:
@@ -459,6 +628,7 @@ def part_scripts(ctx, dist, samples):
                      {"script": src, "errors": re.findall(r"error: .*", c["compile_log"])[:5]}, "g++ -std=gnu++17 compiles and links", "g++ error",
                      key=err_key(c["compile_log"]))
         items, m = analyse_sections(ctx, src, r, consts, c, dist)
+        batch.append((src, r, items))
         if items:
             n_eval += 1
             sig = tuple(sorted(Counter(it["kind"] for it in items).items()))
@@ -467,6 +637,7 @@ def part_scripts(ctx, dist, samples):
                 kinds_seen[it["kind"]] += 1
             for h in r["helpers"]:
                 dist["helper:" + h] += 1
+    n_eval += check_library_and_functions(ctx, batch, dist, consts)
     dist["scripts:compiled"] = sum(1 for c in comp if c["compiled"])
     for k, v in kinds_seen.items():
         dist["items:" + k] = v
